@@ -208,7 +208,50 @@ def cli_part(chk, tier):
                           {"input": {"part": "cli", "cond": text % {"log": "LOG"}}, "impl_observation": diag}, match_key={"cli": name}, size=3)
 
 
+def scope_part(chk, tier):
+    """an acyclic, complete multi-file project in which one COND file rebinds a name of the COND scope for its own use
+    (a wrapper around run_command): every target is accepted, whatever the order in which the files get parsed, and
+    exactly the reachable tasks run"""
+    import implrun
+    from implrun import strip_ansi
+
+    root = implrun.make_project({"COND": ""})
+    log = os.path.join(root, "spawn.log")
+    files = {
+        "a/COND": ('_rc = run_command\n'
+                   'def run_command(name, run, deps=None):\n'
+                   '    _rc(name=name, run=run, deps=[":pre"] + list(deps or []))\n'
+                   '_rc(name="pre", run="echo a-pre >> %s")\n'
+                   'run_command(name="x", run="echo a-x >> %s")\n' % (log, log)),
+        "b/COND": 'run_command(name="y", run="echo b-y >> %s")\n' % log,
+        "COND": ('run_command(name="ab", run="echo ab >> %s", deps=["//a:x", "//b:y"])\n'
+                 'run_command(name="ba", run="echo ba >> %s", deps=["//b:y", "//a:x"])\n'
+                 'run_command(name="only-b", run="echo only-b >> %s", deps=["//b:y"])\n' % (log, log, log)),
+    }
+    for rel, text in files.items():
+        os.makedirs(os.path.dirname(os.path.join(root, rel)) or root, exist_ok=True)
+        open(os.path.join(root, rel), "w").write(text)
+    expect = {"//:ab": {"a-pre", "a-x", "b-y", "ab"}, "//:ba": {"a-pre", "a-x", "b-y", "ba"}, "//:only-b": {"b-y", "only-b"}, "//a:x": {"a-pre", "a-x"}}
+    for target, want in expect.items():
+        for extra in ([], ["--check"]):
+            if os.path.exists(log):
+                os.remove(log)
+            r = implrun.run_cond(["run", target] + extra, root, timeout=60)
+            chk.coverage["evaluations"] += 1
+            chk.count("cli", "scope rebinding")
+            ran = set(open(log).read().split()) if os.path.exists(log) else set()
+            out = strip_ansi(r.out + r.err)
+            if r.code != 0 or ran != (set() if extra else want):
+                chk.violation("impl-violation", "`cond run %s%s` on an acyclic, complete project (a/COND wraps run_command for its own tasks): exit %s, executed %s, expected exit 0 and %s: %r"
+                              % (target, " --check" if extra else "", r.code, sorted(ran), sorted(set() if extra else want), out[-300:]),
+                              {"input": {"part": "cli-scope", "files": {k: v.replace(log, "LOG") for k, v in files.items()}, "argv": ["run", target] + extra},
+                               "impl_observation": {"exit": r.code, "executed": sorted(ran), "output": out[-800:]}}, match_key={"cli": "scope"}, size=4)
+            else:
+                chk.coverage["traces_validated_against_impl"] += 1
+
+
 def both_parts(chk, tier):
+    scope_part(chk, tier)
     validate_part(chk, tier)
     cli_part(chk, tier)
 
